@@ -32,6 +32,7 @@ type Obl struct {
 // Eng runs the symbolic execution of one function.
 type Eng struct {
 	litScan map[*ast.FuncLit]bool
+	siteName map[ast.Node]string
 	privUntil map[types.Object]token.Pos
 	curPos token.Pos
 	inDefer int
